@@ -750,8 +750,8 @@ func explore(fn *vm.BytecodeFunction, fr *funcReport) {
 	if fr.unbounded {
 		pc := fr.joinPC
 		ds := fr.depths[pc]
-		fr.add("operand stack grows without bound "+joinPlace(fr, pc)+" (back edge via "+viaName(pc, ds[len(ds)-1])+")",
-			fmt.Sprintf("function %s offset %d (%s) is reached with depths %v and more: a cycle of the control-flow graph has a positive net stack effect", fr.name, pc, fr.at[pc].name, ds))
+		fr.add("operand stack grows without bound around a cycle (operands are not unwound by the jump; back edge via "+viaName(pc, ds[len(ds)-1])+")",
+			fmt.Sprintf("function %s offset %d (%s, %s) is reached with depths %v and more: a cycle of the control-flow graph has a positive net stack effect", fr.name, pc, fr.at[pc].name, joinPlace(fr, pc), ds))
 		return
 	}
 	// a single depth per pc outside do..finally sections
@@ -763,9 +763,9 @@ func explore(fn *vm.BytecodeFunction, fr *funcReport) {
 	for _, pc := range pcs {
 		ds := fr.depths[pc]
 		if len(ds) > 1 && !fr.inPoly(pc) {
-			fr.add("operand stack depth differs where paths join "+joinPlace(fr, pc)+" (deeper path arrives via "+viaName(pc, ds[len(ds)-1])+")",
-				fmt.Sprintf("function %s offset %d (%s) is reached with depths %v (frame slots incl. %d locals), the deepest one over the edge from %s; the offset is not inside a do..finally section",
-					fr.name, pc, fr.at[pc].name, ds, fr.nlocals, viaName(pc, ds[len(ds)-1])))
+			fr.add("operand stack depth differs where paths join (deeper path arrives via "+viaName(pc, ds[len(ds)-1])+")",
+				fmt.Sprintf("function %s offset %d (%s, %s) is reached with depths %v (frame slots incl. %d locals), the deepest one over the edge from %s; the offset is not inside a do..finally section",
+					fr.name, pc, fr.at[pc].name, joinPlace(fr, pc), ds, fr.nlocals, viaName(pc, ds[len(ds)-1])))
 			break
 		}
 	}
